@@ -613,3 +613,58 @@ def rule_frame_attrs(tree: Tree) -> RuleResult:
     ok = ok and any(isinstance(c, ast.Call) and src(c) == "self.output_buffer.append(frame)" for c in body_walk(hc.node))
     r.ob(ok, Finding("A3f", f"{QS}:QuicSession.handle_frame:crypto-vn", "CRYPTO frames feed the TLS parser and are kept for metadata export; version-negotiation pseudo frames are kept", hf.module.line(hf.node)))
     return r
+
+
+def rule_itermut(tree: Tree) -> RuleResult:
+    r = RuleResult("ITER", "no container is structurally modified inside a `for` loop that iterates over it (removal during iteration skips the element after each removed one)")
+    from ..callgraph import CallGraph
+    cg = CallGraph.of(tree)
+    run = tree.func("main", "run")
+    reach = cg.reachable([run])
+    mut = {"remove", "pop", "insert", "append", "extend", "clear", "sort", "reverse", "add", "discard", "update", "popitem"}
+    for f in sorted(reach, key=lambda x: x.key):
+        for n in body_walk(f.node):
+            if not isinstance(n, ast.For):
+                continue
+            it = n.iter
+            # iteration over a copy is fine: list(x), x[:], sorted(x), tuple(x), x.copy(), enumerate(list(x))
+            if isinstance(it, ast.Call) and dotted(it.func) in ("list", "tuple", "sorted", "set", "frozenset", "reversed"):
+                continue
+            if isinstance(it, ast.Call) and isinstance(it.func, ast.Attribute) and it.func.attr in ("copy", "items", "keys", "values"):
+                base = src(it.func.value, 200) if it.func.attr != "copy" else None
+            else:
+                base = src(it, 200)
+            if base is None or isinstance(it, (ast.Constant, ast.List, ast.Tuple)):
+                continue
+            if isinstance(it, ast.Subscript) and isinstance(it.slice, ast.Slice):
+                continue
+            hits = []
+            for st in n.body:
+                for c in ast.walk(st):
+                    if isinstance(c, ast.Call) and isinstance(c.func, ast.Attribute) and c.func.attr in mut and src(c.func.value, 200) == base:
+                        # a mutation immediately followed by leaving the loop is harmless
+                        hits.append(c)
+                    if isinstance(c, ast.Delete) and any(isinstance(t, ast.Subscript) and src(t.value, 200) == base for t in c.targets):
+                        hits.append(c)
+            if not hits and not any(isinstance(x, ast.Attribute) for x in ast.walk(it)):
+                continue
+            r.instances += 1
+            harmless = True
+            for h in hits:
+                stmt = h
+                from ..core import parent
+                while not isinstance(stmt, ast.stmt):
+                    stmt = parent(stmt)
+                blk = None
+                p = parent(stmt)
+                for fld in ("body", "orelse"):
+                    lst = getattr(p, fld, None)
+                    if isinstance(lst, list) and stmt in lst:
+                        blk = lst
+                nxt = blk[blk.index(stmt) + 1] if blk is not None and blk.index(stmt) + 1 < len(blk) else None
+                if not isinstance(nxt, (ast.Break, ast.Return)):
+                    harmless = False
+            r.ob(not hits or harmless, Finding("ITER", f"{f.key}:mutates-iterated:{base[:60]}",
+                                               f"{f.qualname}: `for … in {base[:80]}` {src(hits[0], 60) if hits else ''} modifies the list being iterated: the element after each removed one is skipped "
+                                               f"(e.g. three buffered CRYPTO frames arriving in reverse order are never reassembled)", f.module.line(n)))
+    return r
